@@ -99,6 +99,25 @@ CHECKS["C09"] = dict(
     design_ref="DESIGN.md section 4, C09",
     note="Trusted: derivative automata; REF's notion of 'starts what follows' (bytes merely skipped by wait / taken only by else do not count); unambiguous-but-rejected is allowed.")
 
+CHECKS["C02"] = dict(
+    category="model_checking",
+    technique="stateless exhaustive exploration of chunk schedules on the real generated C: every string <= L over the byte-class representatives x every composition into chunks, by a driver compiled with the parser",
+    text="Per accepted program (corpus, feature programs, yield programs, universe slice; direct and indirect start pointer; end() when EOF support is on) a C driver enumerates every string up to length L "
+         "over <= 5 representatives and all 2^(n-1) compositions of it into chunks, re-invoking feed after each yield at the returned position, each chunk in its own heap buffer, and compares the chunk-independent trace "
+         "(hooks with argument, absolute offset and visible outputs; yield codes with offsets; terminal code with bytes consumed; end() result; final outputs) with the one-chunk run; longer inputs "
+         "(shortest input reaching every machine state) are cut at every single point and byte-wise. Quick: ~2*10^7 schedules.",
+    design_ref="DESIGN.md section 4, C02",
+    note="Trusted: gcc -O1 as the C; alphabet = representatives of the program's byte classes; strings longer than L only as witnesses. Parsers that never return are counted and left to C04.")
+CHECKS["C10"] = dict(
+    category="model_checking",
+    technique="exhaustive enumeration of call histories (strings x compositions x post-terminal call suffixes) on the real C with the abstract machine as protocol monitor; strict-done relation by bisimulation; in-C protocol invariants over all chunk schedules",
+    text="Per program and variant (indirect/direct pointer, strict-done, EOF, -O3, yields) every string <= L in every composition, continued after its last call by every sequence of <= 2 further calls from "
+         "{feed 1 byte, feed 2 bytes, end}, is executed on the C; each call's code and pointer position must equal the machine's, OK only after the whole chunk, FAIL absorbing for feed and end, DONE/finish with the pointer on the "
+         "last byte read, yields at the resume position. The strict-done machine must equal the non-strict one except that DONE moves to the following call. The exhaustive chunk explorer (C02's engine) additionally "
+         "checks OK-without-consuming, pointer-outside-chunk and non-absorbing FAIL on every schedule.",
+    design_ref="DESIGN.md section 4, C10",
+    note="Trusted: AM as monitor (bound by C06/C01); calls after DONE/finish are unspecified and only compared with the machine; empty chunks are exercised under C12's zero-length option.")
+
 NOT_YET = {
 }
 
